@@ -32,6 +32,11 @@ class Contract:
         """defining formulas of the ghosts / instances of definitional axioms of spec functions"""
         return ()
 
+    def post_defs(self, F):
+        """defining formulas of ghosts that name a function of the *post* state (assumed at the
+        function's return on the proof side, and after the call at call sites)"""
+        return ()
+
     def call_defs(self, F):
         """definitional facts a *caller* may assume (default: the same as ghost_defs)"""
         return self.ghost_defs(F)
